@@ -400,6 +400,11 @@ class Module:
             m = _HEAD_FN.match(head)
             if m:
                 name = m.group(1)
+                if name in self.raw:
+                    # macro-generated impls (lazy_static) print identical def paths: keep every body
+                    k = 2
+                    while '%s#dup%d' % (name, k) in self.raw: k += 1
+                    name = '%s#dup%d' % (name, k)
                 self.raw[name] = ('fn', m.group(2), m.group(3), body)
                 self.order.append(name)
             else:
